@@ -10,3 +10,5 @@ TRUSTED = TRUSTED_CORE + [STORAGE_ASSUMED,
                           "generator functions (TinyFlux.__iter__, Measurement.__iter__) are read as the list of what they yield (A-gen: the consumer does not interleave other effects)", TIME_ASSUMED,
                           "three Skolem functions for existential clauses of the index invariant (every tag key has a value; every position occurs in the time order; conservative over the precondition)"]
 ASSUMPTIONS = [A_ALIAS]
+# "any read leaves the index valid" is C06's clause (known finding KF-20 for len()/iteration): decided there, not here
+OUT_OF_SCOPE = [r"index_valid_after_read_when_auto"]
